@@ -402,7 +402,8 @@ func (m *nodeMonitor) quiescent() {
 	}
 	ts := n.outstandingTimers()
 	o.res.Count("quiescent_points_monitored", 1)
-	if !m.partial {
+	{
+		// (Also between two passes of the controlled select: the cancel and the way out happen in one handler call.)
 		// A cancelled prevote-delay / precommit-delay timer: the machine must be on its way out of that step - the
 		// precommit decision requested, a finalization requested, another timer of the round started, or the round left.
 		keep := m.cancelled[:0]
